@@ -583,6 +583,10 @@ def run(ctx):
     c02.check_counts_init(ctx, 2)
     c02.check_transition_fn(ctx, 2)
     sm, exc = check_main_loop(ctx, 3)
+    # the per-tick counters are taken from the lists handed to the scheduler, partly after the call: no shipped scheduler changes those lists
+    from . import sched
+    for key_ in ("naive", "tmpl", "priority", "priority-pool", "overbook"):
+        sched.ob_inputs_not_mutated(ctx, 3, key_, key_)
     sm2 = check_sweep(ctx, sm, exc, 4)
     check_tail(ctx, sm, 5)
     check_reductions(ctx, 6)
